@@ -35,6 +35,7 @@ WExact(e, reg, L) ==
        [] e.op = "npot" -> Exact(IF ZIsZero(x) THEN ZI(1)
                                  ELSE IF Fits(NextPow2(x), L) THEN NextPow2(x) ELSE Z0)
        [] e.op = "from_int" -> Exact(ZShl(ZJ(e.n), f))
+       [] e.op = "from_fix" -> Exact(ConvR(ZJ(e.sv), LF(e.sl), f))       \* from_num of a bool / another fixed-point value
        [] e.op = "from_float" ->                                  \* a non-finite float panics (marked like a zero divisor)
             LET fl == FDec(ZJ(e.fb), e.ft) IN IF fl.cls = "fin" THEN Exact(FloatToFixR(fl, f)) ELSE ZeroDiv
        [] e.op = "sum" ->
